@@ -1,22 +1,36 @@
-/* c12_trace.c - recording driver for C12 (ledger / exploration part): generated matrices of sizes 1..12 with condition
- * number <= 1e6 (SPD, symmetric indefinite, diagonal, permutation, zero leading minors, triangular, structured, general,
- * rectangular in both orientations) are passed to the library's inversion / determinant / solver / pseudo-inverse /
- * eigen / SVD routines; the residual of each defining equation is computed here in double (trusted projection),
- * quantised (vq12: units of 1e-12, saturating) and logged; TLC validates the log against spec/TraceLinAlg.tla.
- * Every library call runs in a forked child (vrt_run_child): an ASan abort, a SEGV or a hang is attributed to that call
- * and logged by the parent as a Crash event.
+/* c12_trace.c - recording driver for C12 (ledger part): generated matrices of sizes 1..12 with condition number <= 1e6
+ * are passed to the library's inversion / determinant / solver / least-squares / pseudo-inverse / eigen / SVD routines;
+ * the residual of each defining equation is computed here in double (trusted projection), quantised (vq12: units of
+ * 1e-12, saturating) and logged; TLC validates the log against spec/TraceLinAlg.tla.
  *
- * usage: c12_trace <out.ndjson> <seed> <nmatrices>
- * Independent oracles: LAPACK dgesdd (condition number), dgetrf (determinant as product of pivots) called directly.
+ * The work is a deterministic, STRATIFIED plan of blocks (one block = one Reset ... in the trace):
+ *   square blocks   every class x every size 1..12 x scale mode {2^k, 1e-6, 1e6}     (classes: spd, symm, diag, perm, zlm, tri,
+ *                   toeplitz, general, intsmall, graded, symperm, repeig, offset, nonrep, utri)
+ *   rect blocks     every pair m > n in 1..12 (incl. 12x1 / 1x12, m = n + 1): tall for OLS / Penrose / SVD, its transpose (wide) for SVD
+ *   rankdef blocks  rank-deficient / zero matrices for the SVD only: OUTSIDE the quantifier (cond = inf), logged with q = 0
+ *   (every fifth square block and some tall ones also call the SVD-based MatrixPseudoinversion, which the anchors name but the
+ *    statement's observe list does not: its Penrose events are reported by the runner as EXTRA findings only)
+ *   history blocks  one routine called 9-10 times IN ONE PROCESS on matrices of changing size / shape / magnitude into the
+ *                   SAME output objects (K7: static caches, stale work arrays, outputs that are only resized when empty)
+ * Item i of the plan is generated from (seed, i) alone, so any block can be re-run alone (replay).
+ * Every block runs in a forked child; the child publishes the index of the job it is executing in shared memory, so a
+ * sanitizer abort, a signal or the watchdog (alarm) is attributed to that call: the parent logs a Crash event and
+ * resumes the block after it.
+ *
+ * usage: c12_trace <out.ndjson> <seed> <tier 0=quick 1=thorough> <part> <nparts> [only_item]
+ * Independent oracles: LAPACK dgesvd (condition number, singular values), dgetrf (determinant as product of pivots)
+ * called directly; exact integer Bareiss elimination only as a FILTER (which integer cases fit TLC's 32-bit integers).
  */
 #include "scientific.h"
 #include "verif_rt.h"
+#include <sys/mman.h>
 
-extern void dgesdd_(char *jobz, int *m, int *n, double *a, int *lda, double *s, double *u, int *ldu, double *vt, int *ldvt, double *work, int *lwork, int *iwork, int *info);
+extern void dgesvd_(char *jobu, char *jobvt, int *m, int *n, double *a, int *lda, double *s, double *u, int *ldu, double *vt, int *ldvt, double *work, int *lwork, int *info);
 extern void dgetrf_(int *M, int *N, double *A, int *lda, int *IPIV, int *INFO);
 
 static vrng R;
 static double lognrm(double lo, double hi){ return exp(log(lo) + (log(hi) - log(lo)) * vr_unif(&R)); }
+static double rsign(void){ return vr_unif(&R) < 0.5 ? -1.0 : 1.0; }
 
 /* ---- small dense helpers (row-major double arrays) ---- */
 typedef struct { int r, c; double *a; } M;
@@ -25,8 +39,10 @@ static void fr(M x){ free(x.a); }
 #define E(x,i,j) (x).a[(size_t)(i) * (x).c + (j)]
 static M mul(M a, M b){ M p = mk(a.r, b.c); for(int i = 0; i < a.r; i++) for(int k = 0; k < a.c; k++){ double v = E(a,i,k); if(v != 0) for(int j = 0; j < b.c; j++) E(p,i,j) += v * E(b,k,j); } return p; }
 static M tr(M a){ M t = mk(a.c, a.r); for(int i = 0; i < a.r; i++) for(int j = 0; j < a.c; j++) E(t,j,i) = E(a,i,j); return t; }
+static M cp(M a){ M t = mk(a.r, a.c); memcpy(t.a, a.a, sizeof(double) * (size_t)(a.r * a.c)); return t; }
 static double fro(M a){ double s = 0; for(int i = 0; i < a.r * a.c; i++) s += a.a[i] * a.a[i]; return sqrt(s); }
 static double maxabs(M a){ double s = 0; for(int i = 0; i < a.r * a.c; i++){ double v = fabs(a.a[i]); if(!(v <= s)) s = v; } return s; }
+static void scal(M a, double s){ for(int i = 0; i < a.r * a.c; i++) a.a[i] *= s; }
 static M from_lib(matrix *m){ M x = mk((int)m->row, (int)m->col); for(int i = 0; i < x.r; i++) for(int j = 0; j < x.c; j++) E(x,i,j) = m->data[i][j]; return x; }
 static matrix *to_lib(M x){ matrix *m; NewMatrix(&m, x.r, x.c); for(int i = 0; i < x.r; i++) for(int j = 0; j < x.c; j++) m->data[i][j] = E(x,i,j); return m; }
 /* random orthogonal n x n: product of n Householder reflections */
@@ -40,17 +56,18 @@ static M rand_orth(int n){
   }
   free(v); return q;
 }
-/* singular values of a (LAPACK, independent of the library's wrappers); returns cond2 (inf if singular) */
-static double cond2(M a, double *smax){
+/* singular values of a (LAPACK dgesvd, independent of the library's wrappers, which use dgesdd); returns cond2 (inf if singular) */
+static double cond2(M a, double *sv){
   int m = a.r, n = a.c, k = m < n ? m : n, info, lwork = -1; if(k == 0) return INFINITY;
-  double *cm = malloc(sizeof(double) * m * n), *s = malloc(sizeof(double) * k), wk, *work; int *iw = malloc(sizeof(int) * 8 * k);
+  double *cm = malloc(sizeof(double) * m * n), *s = malloc(sizeof(double) * k), wk, *work;
   for(int i = 0; i < m; i++) for(int j = 0; j < n; j++) cm[i + (size_t)j * m] = E(a,i,j);
   double dum; int one = 1;
-  dgesdd_("N", &m, &n, cm, &m, s, &dum, &one, &dum, &one, &wk, &lwork, iw, &info);
+  dgesvd_("N", "N", &m, &n, cm, &m, s, &dum, &one, &dum, &one, &wk, &lwork, &info);
   lwork = (int)wk + 1; work = malloc(sizeof(double) * lwork);
-  dgesdd_("N", &m, &n, cm, &m, s, &dum, &one, &dum, &one, work, &lwork, iw, &info);
-  double c = (info == 0 && s[k - 1] > 0) ? s[0] / s[k - 1] : INFINITY; if(smax) *smax = s[0];
-  free(cm); free(s); free(work); free(iw); return c;
+  dgesvd_("N", "N", &m, &n, cm, &m, s, &dum, &one, &dum, &one, work, &lwork, &info);
+  double c = (info == 0 && s[k - 1] > 0) ? s[0] / s[k - 1] : INFINITY;
+  if(sv) for(int i = 0; i < k; i++) sv[i] = info == 0 ? s[i] : NAN;
+  free(cm); free(s); free(work); return c;
 }
 static double rowsum_prod(M a){ double p = 1; for(int i = 0; i < a.r; i++){ double s = 0; for(int j = 0; j < a.c; j++) s += fabs(E(a,i,j)); p *= s; } return p > 0 ? p : 1e-300; }
 static double det_lu(M a){
@@ -60,58 +77,131 @@ static double det_lu(M a){
   double d = 1; for(int i = 0; i < n; i++){ d *= cm[i + (size_t)i * n]; if(ip[i] != i + 1) d = -d; }
   free(cm); free(ip); return d;
 }
+/* FILTER only: does the fraction-free (Bareiss) elimination of this integer matrix, as TLC will run it (first non-zero pivot from
+ * row k downwards), keep every intermediate product below 1e9 ?  (TLC integers are 32-bit; an overflow there is an infra failure) */
+static int bareiss_fits(M a){
+  int n = a.r; if(n != a.c || n > 12) return 0;
+  __int128 m[12][12], prev = 1; const __int128 LIM = 1000000000;
+  for(int i = 0; i < n; i++) for(int j = 0; j < n; j++){ double v = E(a,i,j); if(fabs(v) > 1e6 || v != round(v)) return 0; m[i][j] = (__int128)llround(v); }
+  for(int k = 0; k < n - 1; k++){
+    int p = -1; for(int i = k; i < n; i++) if(m[i][k] != 0){ p = i; break; }
+    if(p < 0) return 1;                                            /* singular: determinant 0, nothing left to multiply */
+    if(p != k) for(int j = 0; j < n; j++){ __int128 t = m[k][j]; m[k][j] = m[p][j]; m[p][j] = t; }
+    for(int i = k + 1; i < n; i++) for(int j = k + 1; j < n; j++){
+      __int128 x = m[k][k] * m[i][j], y = m[i][k] * m[k][j];
+      if(x > LIM || x < -LIM || y > LIM || y < -LIM || x - y > LIM || x - y < -LIM) return 0;
+      m[i][j] = (x - y) / prev;
+    }
+    prev = m[k][k];
+  }
+  return 1;
+}
 
-/* ---- generators; every class returns a matrix with cond2 <= 1e6 (checked by the caller) ---- */
-static M with_sv(int m, int n, double cond, double scale){      /* U diag(s) V' with prescribed singular values */
+/* ---- generators; every class returns a matrix whose cond2 is then measured by the caller (<= 1e6 or dropped) ---- */
+static M with_sv(int m, int n, double cond){      /* U diag(s) V' with prescribed singular values */
   int k = m < n ? m : n; M u = rand_orth(m), v = rand_orth(n), s = mk(m, n);
-  for(int i = 0; i < k; i++) E(s,i,i) = scale * (k == 1 ? 1.0 : pow(cond, -(double)i / (k - 1)));
+  for(int i = 0; i < k; i++) E(s,i,i) = (k == 1 ? 1.0 : pow(cond, -(double)i / (k - 1)));
   if(k > 2 && vr_unif(&R) < 0.3) E(s,1,1) = E(s,0,0);          /* repeated singular value */
   M us = mul(u, s), vt = tr(v), a = mul(us, vt); fr(u); fr(v); fr(s); fr(us); fr(vt); return a;
 }
-static M sym_eig(int n, double cond, double scale, int indefinite){
-  M q = rand_orth(n), d = mk(n, n);
-  for(int i = 0; i < n; i++){ E(d,i,i) = scale * (n == 1 ? 1.0 : pow(cond, -(double)i / (n - 1))); if(indefinite && vr_unif(&R) < 0.5) E(d,i,i) = -E(d,i,i); }
-  if(n > 2 && vr_unif(&R) < 0.4) E(d,1,1) = E(d,0,0);          /* repeated eigenvalue */
-  M qd = mul(q, d), qt = tr(q), a = mul(qd, qt); fr(q); fr(d); fr(qd); fr(qt);
+static M sym_from(M q, M d){
+  int n = q.r; M qd = mul(q, d), qt = tr(q), a = mul(qd, qt); fr(qd); fr(qt);
   for(int i = 0; i < n; i++) for(int j = 0; j < i; j++){ double v = 0.5 * (E(a,i,j) + E(a,j,i)); E(a,i,j) = E(a,j,i) = v; }
   return a;
 }
+static M sym_eig(int n, double cond, int indefinite){
+  M q = rand_orth(n), d = mk(n, n);
+  for(int i = 0; i < n; i++){ E(d,i,i) = (n == 1 ? 1.0 : pow(cond, -(double)i / (n - 1))); if(indefinite && vr_unif(&R) < 0.5) E(d,i,i) = -E(d,i,i); }
+  if(n > 2 && vr_unif(&R) < 0.4) E(d,1,1) = E(d,0,0);          /* repeated eigenvalue */
+  M a = sym_from(q, d); fr(q); fr(d); return a;
+}
+/* symmetric with heavily repeated eigenvalues (K8): every multiplicity pattern the size allows */
+static M rep_eig(int n, int pattern){
+  M d = mk(n, n); double a = lognrm(0.5, 4.0), b = -lognrm(0.05, 2.0), c = lognrm(0.01, 0.4);
+  for(int i = 0; i < n; i++){
+    double v;
+    switch(pattern % 4){
+      case 0: v = a; break;                                       /* c I : one eigenvalue of multiplicity n */
+      case 1: v = i == n - 1 && n > 1 ? b : a; break;              /* multiplicity n-1 and 1 */
+      case 2: v = (i / 2) % 3 == 0 ? a : ((i / 2) % 3 == 1 ? b : c); break;   /* pairs */
+      default: v = i < n / 2 ? a : b; break;                       /* two clusters of opposite sign */
+    }
+    E(d,i,i) = v;
+  }
+  if(pattern % 8 >= 4){ return d; }                                /* already diagonal: exact ties */
+  M q = rand_orth(n), s = sym_from(q, d); fr(q); fr(d); return s;
+}
 static void rand_perm(int n, int *p){ for(int i = 0; i < n; i++) p[i] = i; for(int i = n - 1; i > 0; i--){ int j = (int)vr_int(&R, 0, i), t = p[i]; p[i] = p[j]; p[j] = t; } }
-static const char *CLS[] = {"spd", "symm", "diag", "perm", "zlm", "tri", "toeplitz", "general", "intsmall", "graded"};
-enum { SPD, SYMM, DIAG, PERM, ZLM, TRI, TOEP, GEN, INTS, GRADED, NCLS };
-static M gen_square(int cls, int n, int *is_int){
-  double cond = pow(10.0, 6.0 * vr_unif(&R) * vr_unif(&R)), scale = ldexp(1.0, (int)vr_int(&R, -10, 10));
+static M perm_mat(int n, int fix_first){ M a = mk(n, n); int p[16]; rand_perm(n, p); if(!fix_first && n > 1 && p[0] == 0){ p[0] = p[1]; p[1] = 0; } for(int i = 0; i < n; i++) E(a,i,p[i]) = 1; return a; }
+static M utri_int(int n){      /* permutation (moving row 1) times a unit upper triangular matrix over {-1,0,1}: zero leading minors, integer inverse */
+  M t = mk(n, n); for(int i = 0; i < n; i++){ E(t,i,i) = 1; for(int j = i + 1; j < n; j++) E(t,i,j) = vr_unif(&R) < 0.35 ? rsign() : 0.0; }
+  int p[16]; rand_perm(n, p); if(n > 1 && p[0] == 0){ p[0] = p[1]; p[1] = 0; }
+  M a = mk(n, n); for(int i = 0; i < n; i++) for(int j = 0; j < n; j++) E(a,i,j) = E(t,p[i],j); fr(t); return a;
+}
+static const char *CLS[] = {"spd", "symm", "diag", "perm", "zlm", "tri", "toeplitz", "general", "intsmall", "graded", "symperm", "repeig", "offset", "nonrep", "utri", "tall", "wide", "rankdef"};
+enum { SPD, SYMM, DIAG, PERM, ZLM, TRI, TOEP, GEN, INTS, GRADED, SYMPERM, REPEIG, OFFSET, NONREP, UTRI, NSQ, TALL = NSQ, WIDE, RANKDEF };
+static int symmetric_class(int c){ return c == SPD || c == SYMM || c == DIAG || c == TOEP || c == SYMPERM || c == REPEIG; }
+/* unit-scale square matrix of a class; *is_int: integer entries (exact TLC checks possible); sub: stratification index within the class */
+static M gen_square(int cls, int n, int sub, int *is_int){
+  double cond = pow(10.0, 6.0 * vr_unif(&R) * vr_unif(&R));
   *is_int = 0;
   switch(cls){
-    case SPD: return sym_eig(n, cond, scale, 0);
-    case SYMM: return sym_eig(n, cond, scale, 1);
-    case DIAG: { M a = mk(n, n); for(int i = 0; i < n; i++) E(a,i,i) = (vr_unif(&R) < 0.5 ? -1 : 1) * scale * lognrm(1.0 / cond, 1.0); return a; }
-    case PERM: { M a = mk(n, n); int p[16]; rand_perm(n, p); for(int i = 0; i < n; i++) E(a,i,p[i]) = 1; *is_int = 1; return a; }
+    case SPD: return sym_eig(n, cond, 0);
+    case SYMM: return sym_eig(n, cond, 1);
+    case DIAG: { M a = mk(n, n); for(int i = 0; i < n; i++) E(a,i,i) = rsign() * lognrm(1.0 / cond, 1.0); return a; }
+    case PERM: *is_int = 1; return perm_mat(n, 1);
     case ZLM: { /* permutation (no fixed first row) times a well-conditioned upper triangular matrix: leading entries are zero */
-      M t = mk(n, n); for(int i = 0; i < n; i++){ E(t,i,i) = scale * lognrm(0.2, 1.0) * (vr_unif(&R) < 0.5 ? -1 : 1); for(int j = i + 1; j < n; j++) E(t,i,j) = scale * 0.3 * vr_norm(&R) / n; }
+      M t = mk(n, n); for(int i = 0; i < n; i++){ E(t,i,i) = lognrm(0.2, 1.0) * rsign(); for(int j = i + 1; j < n; j++) E(t,i,j) = 0.3 * vr_norm(&R) / n; }
       int p[16]; rand_perm(n, p); if(n > 1 && p[0] == 0){ p[0] = p[1]; p[1] = 0; }
       M a = mk(n, n); for(int i = 0; i < n; i++) for(int j = 0; j < n; j++) E(a,i,j) = E(t,p[i],j); fr(t); return a; }
-    case TRI: { M a = mk(n, n); int up = vr_unif(&R) < 0.5; for(int i = 0; i < n; i++){ E(a,i,i) = scale * lognrm(0.05, 1.0) * (vr_unif(&R) < 0.5 ? -1 : 1); for(int j = 0; j < i; j++){ double v = scale * 0.5 * vr_norm(&R) / n; if(up) E(a,j,i) = v; else E(a,i,j) = v; } } return a; }
-    case TOEP: { M a = mk(n, n); double d = 2 + vr_unif(&R), o = -1; for(int i = 0; i < n; i++){ E(a,i,i) = d * scale; if(i) E(a,i,i-1) = E(a,i-1,i) = o * scale; } return a; }
-    case INTS: { M a = mk(n, n); for(int i = 0; i < n; i++) for(int j = 0; j < n; j++) E(a,i,j) = (double)vr_int(&R, -3, 3); *is_int = 1; return a; }
+    case TRI: { M a = mk(n, n); int up = sub % 2; for(int i = 0; i < n; i++){ E(a,i,i) = lognrm(0.05, 1.0) * rsign(); for(int j = 0; j < i; j++){ double v = 0.5 * vr_norm(&R) / n; if(up) E(a,j,i) = v; else E(a,i,j) = v; } } return a; }
+    case TOEP: { M a = mk(n, n); double d = 2 + vr_unif(&R), o = -1; for(int i = 0; i < n; i++){ E(a,i,i) = d; if(i) E(a,i,i-1) = E(a,i-1,i) = o; } return a; }
+    case INTS: { int lim = n <= 4 ? 3 : 2; M a = mk(n, n); for(int i = 0; i < n; i++) for(int j = 0; j < n; j++) E(a,i,j) = (double)vr_int(&R, -lim, lim); *is_int = 1; return a; }
     case GRADED: { /* well-conditioned dense matrix with a zero (or tiny) pivot position and entries of very different magnitude in the
                       same column: a pivot search must take the LARGEST candidate, not merely a non-zero one */
-      M a = with_sv(n, n, 1.0 + 50.0 * vr_unif(&R), scale);
+      M a = with_sv(n, n, 1.0 + 50.0 * vr_unif(&R));
       if(n >= 3){
         int c = (int)vr_int(&R, 0, n - 2);
-        E(a,c,c) = vr_unif(&R) < 0.5 ? 0.0 : scale * 1e-13;
+        E(a,c,c) = vr_unif(&R) < 0.5 ? 0.0 : 1e-13;
         int r = (int)vr_int(&R, c + 2 < n ? c + 2 : n - 1, n - 1);
-        E(a,r,c) = scale * 1e-14 * (vr_unif(&R) < 0.5 ? -1 : 1);
+        E(a,r,c) = 1e-14 * rsign();
       }
       return a; }
-    default: return with_sv(n, n, cond, scale);
+    case SYMPERM: { /* symmetric permutation matrix (an involution): eigenvalues +1 / -1, heavily repeated */
+      M a = mk(n, n); int p[16]; rand_perm(n, p); int used[16] = {0};
+      for(int i = 0; i + 1 < n; i += 2){ if(vr_unif(&R) < 0.75){ E(a,p[i],p[i+1]) = E(a,p[i+1],p[i]) = 1; used[p[i]] = used[p[i+1]] = 1; } }
+      for(int i = 0; i < n; i++) if(!used[i]) E(a,i,i) = 1;
+      *is_int = 1; return a; }
+    case REPEIG: return rep_eig(n, sub);
+    case OFFSET: { /* K3: well-conditioned matrix plus a large common offset c * 1 1' (conditioning grows with c; measured by the caller) */
+      M a = with_sv(n, n, 1.0 + 20.0 * vr_unif(&R)); double c = pow(10.0, 1.0 + 3.0 * vr_unif(&R)) * rsign();
+      for(int i = 0; i < n * n; i++) a.a[i] += c; return a; }
+    case NONREP: { /* K5: entries that are not representable in binary (0.1 k, k / 3, 1e-3 k, 0.7 k) on an integer pattern */
+      static const double S[] = {0.1, 1.0 / 3.0, 1e-3, 0.7}; int ii; M a;
+      switch(sub % 3){ case 0: a = perm_mat(n, 0); break; case 1: a = utri_int(n); break; default: a = gen_square(INTS, n, sub, &ii); break; }
+      scal(a, S[(sub / 3) % 4]); return a; }
+    case UTRI: *is_int = 1; return utri_int(n);
+    default: return with_sv(n, n, cond);
   }
 }
 
-/* ---- one library call per child ---- */
-typedef struct { int what; M a, b; int idx; const char *shape; } job;
-enum { J_INV, J_LUINV, J_DET, J_DETMUL, J_SOLVE, J_OLS, J_PENROSE, J_EIG, J_SVD, J_SVDLAPACK };
-static const char *RN[] = {"MatrixInversion", "MatrixLUInversion", "MatrixDeterminant", "MatrixDeterminant", "SolveLSE", "OrdinaryLeastSquares", "MatrixMoorePenrosePseudoinverse", "EVectEval", "SVD", "SVDlapack"};
+/* ---- plan entries ---- */
+typedef struct {
+  M a; int cls; const char *shape; double cond; int lead0, isint, q, var; const char *sc;
+  double sv[12]; int k;
+  M x0, y, partner;            /* solve: true solution; least squares: response; determinant multiplicativity: the other factor */
+  int partner_int, xs;
+} ment;
+enum { J_INV, J_LUINV, J_DET, J_DETMUL, J_SOLVE, J_OLS, J_PENROSE, J_EIG, J_SVD, J_SVDLAPACK, NJK, J_PINVSVD = NJK };
+static const char *RN[] = {"MatrixInversion", "MatrixLUInversion", "MatrixDeterminant", "MatrixDeterminant", "SolveLSE", "OrdinaryLeastSquares", "MatrixMoorePenrosePseudoinverse", "EVectEval", "SVD", "SVDlapack", "MatrixPseudoinversion"};
+typedef struct { int what, mi, reuse; } job;      /* reuse: 0 fresh empty output, 1 sized output holding stale numbers, 2 the block's persistent output (history) */
+#define MAXM 12
+#define MAXJ 48
+typedef struct { int id, hist, nm, nj; ment m[MAXM]; job j[MAXJ]; } block;
+
+static const char *SCN[] = {"p2", "1e-6", "1e6"};
+static double scale_of(int mode){ return mode == 1 ? 1e-6 : (mode == 2 ? 1e6 : ldexp(1.0, (int)vr_int(&R, -10, 10))); }
+static const double XS[] = {1.0, 1e-6, 1e6};
 
 static void emit_int_matrix(char *buf, size_t cap, int *p, M x){
   *p += snprintf(buf + *p, cap - *p, "[");
@@ -120,65 +210,168 @@ static void emit_int_matrix(char *buf, size_t cap, int *p, M x){
 }
 static int near_int(M x, double lim){ for(int i = 0; i < x.r * x.c; i++){ double v = x.a[i]; if(!vfinite(v) || fabs(v) > lim || fabs(v - round(v)) > 1e-9) return 0; } return 1; }
 
-static int child(void *arg){
-  job *j = arg; M a = j->a; static char buf[16384];
-  matrix *A = to_lib(a);
+/* fill the auxiliary data of an entry (measured condition number, singular values, rhs ...); returns 0 if outside the quantifier */
+static int finish_entry(ment *e, int cls, const char *shape, int isint, int scmode, int want_q){
+  e->cls = cls; e->shape = shape; e->isint = isint; e->sc = SCN[scmode]; e->q = want_q;
+  e->k = e->a.r < e->a.c ? e->a.r : e->a.c;
+  e->cond = cond2(e->a, e->sv);
+  e->lead0 = E(e->a,0,0) == 0.0 ? 1 : 0;
+  e->x0 = mk(0, 0); e->y = mk(0, 0); e->partner = mk(0, 0); e->partner_int = 0; e->xs = 0; e->var = 0;
+  if(!vfinite(e->sv[0])) return 0;
+  if(want_q && !(e->cond <= 1e6)) return 0;
+  return 1;
+}
+static void add_job(block *b, int what, int mi, int reuse){ if(b->nj >= MAXJ){ fprintf(stderr, "c12_trace: job table full\n"); exit(2); } b->j[b->nj].what = what; b->j[b->nj].mi = mi; b->j[b->nj].reuse = reuse; b->nj++; }
+
+/* one square entry with everything the square routines need; returns 0 if dropped */
+static int make_square(ment *e, int cls, int n, int sub, int scmode, int xsmode){
+  int is_int = 0; e->a = gen_square(cls, n, sub, &is_int);
+  double s = (is_int && scmode == 0) ? 1.0 : scale_of(scmode);
+  if(s != 1.0){ scal(e->a, s); is_int = 0; }
+  if(!finish_entry(e, cls, "square", is_int, scmode, 1)) return 0;
+  e->xs = xsmode; e->x0 = mk(n, 1); for(int i = 0; i < n; i++) E(e->x0,i,0) = XS[xsmode] * (vr_norm(&R) + (vr_unif(&R) < 0.5 ? 2 : -2));
+  e->y = mk(n, 1); for(int i = 0; i < n; i++) E(e->y,i,0) = XS[xsmode] * vr_norm(&R);
+  if(n <= 8){      /* the other factor of det(A B): a general / structured / integer matrix of the same size */
+    int ii = 0, pc = (is_int && n <= 5) ? (sub % 2 ? INTS : UTRI) : (int[]){GEN, PERM, DIAG, TRI, SPD}[sub % 5];
+    e->partner = gen_square(pc, n, sub + 1, &ii); e->partner_int = ii;
+    if(!ii) scal(e->partner, ldexp(1.0, (int)vr_int(&R, -4, 4)));
+  }
+  return 1;
+}
+static void square_jobs(block *b, int mi, int reuse){
+  ment *e = &b->m[mi]; int n = e->a.r;
+  add_job(b, J_INV, mi, reuse); add_job(b, J_LUINV, mi, reuse);
+  if(n <= 8){ add_job(b, J_DET, mi, 0); add_job(b, J_DETMUL, mi, 0); }
+  add_job(b, J_SOLVE, mi, reuse);
+  if(symmetric_class(e->cls)) add_job(b, J_EIG, mi, reuse);
+  if(e->cond <= 1e3){ add_job(b, J_OLS, mi, reuse); add_job(b, J_PENROSE, mi, reuse); if(b->id % 5 == 0) add_job(b, J_PINVSVD, mi, 0); }     /* normal equations: cond^2 <= 1e6 */
+  add_job(b, J_SVD, mi, 0); add_job(b, J_SVDLAPACK, mi, reuse);
+}
+/* tall entry (m > n, full column rank) */
+static int make_tall(ment *e, int m, int n, double cmax, int scmode, int variant){
+  e->a = with_sv(m, n, pow(10.0, log10(cmax) * vr_unif(&R))); int var = 0;
+  if(variant == 1 && m > n + 1){ for(int j = 0; j < n; j++) E(e->a,m-1,j) = E(e->a,0,j); var = 1; }        /* K8: duplicate row */
+  if(variant == 2 && n > 1){ for(int i = 0; i < m; i++) E(e->a,i,n-1) = 0.25; var = 2; }                    /* K8: a constant column among informative ones */
+  scal(e->a, scale_of(scmode));
+  if(!finish_entry(e, TALL, "rect-tall", 0, scmode, 1)) return 0;
+  e->var = var;
+  e->y = mk(m, 1); for(int i = 0; i < m; i++) E(e->y,i,0) = vr_norm(&R);
+  return 1;
+}
+static int make_wide_of(ment *w, ment *t){
+  w->a = tr(t->a);
+  int ok = finish_entry(w, WIDE, "rect-wide", 0, t->sc == SCN[1] ? 1 : (t->sc == SCN[2] ? 2 : 0), 1); w->var = t->var; return ok;
+}
+/* rank-deficient input for the SVD (cond = inf: outside the quantifier, q = 0) */
+static int make_rankdef(ment *e, int m, int n, int kind, int scmode){
+  int k = m < n ? m : n; M a;
+  if(kind == 0) a = mk(m, n);                                                           /* zero matrix */
+  else { int r = kind == 1 ? 1 : (k > 1 ? k - 1 : 1); if(r >= k && k > 1) r = k - 1;
+    M u = rand_orth(m), v = rand_orth(n), s = mk(m, n); for(int i = 0; i < r && i < k; i++) E(s,i,i) = 1.0 + i;
+    if(k == 1) E(s,0,0) = 0;
+    M us = mul(u, s), vt = tr(v); a = mul(us, vt); fr(u); fr(v); fr(s); fr(us); fr(vt);
+    if(kind == 3 && n > 1){ for(int i = 0; i < m; i++) E(a,i,n-1) = E(a,i,0); } }      /* duplicate column */
+  scal(a, scale_of(scmode)); e->a = a;
+  finish_entry(e, RANKDEF, m == n ? "square" : (m > n ? "rect-tall" : "rect-wide"), 0, scmode, 0);
+  if(!vfinite(e->sv[0])) return 0;
+  return 1;
+}
+
+/* ---- the child: executes jobs start.. of a block ---- */
+static int *progress;                      /* shared: [0] index of the job being executed */
+static matrix *H_X, *H_U, *H_S, *H_VT, *H_V, *H_P; static dvector *H_ev, *H_sol, *H_beta;
+static matrix *out_m(int reuse, matrix **slot, int r, int c, int jx){
+  matrix *x;
+  if(reuse == 2){ if(!*slot) initMatrix(slot); return *slot; }
+  if(reuse == 1){ int dr = jx % 3 == 1 ? 1 : 0, dc = jx % 3 == 2 ? 1 : 0; NewMatrix(&x, r + dr, c + dc); MatrixSet(x, 7.25 + jx); return x; }
+  initMatrix(&x); return x;
+}
+static dvector *out_v(int reuse, dvector **slot, int n, int jx, double stale){
+  dvector *x;
+  if(reuse == 2){ if(!*slot) initDVector(slot); return *slot; }
+  if(reuse == 1){ NewDVector(&x, n + (jx % 3 == 1 ? 1 : 0)); for(size_t i = 0; i < x->size; i++) x->data[i] = stale * (1.5 + (double)i); return x; }
+  initDVector(&x); return x;
+}
+static void emit_mat(block *b, int mi, int seq){
+  static char mb[8192]; ment *e = &b->m[mi];
+  int p = snprintf(mb, sizeof mb, "{\"e\":\"Mat\",\"id\":%d,\"k\":%d,\"class\":\"%s\",\"shape\":\"%s\",\"m\":%d,\"n\":%d,\"q\":%d,\"cond\":%ld,\"lead0\":%d,\"isint\":%d,\"sc\":\"%s\",\"hist\":%d,\"xs\":%d,\"var\":%d",
+                   b->id, seq, CLS[e->cls], e->shape, e->a.r, e->a.c, e->q, e->q ? (long)ceil(e->cond) : 0L, e->lead0, e->isint, e->sc, b->hist, e->xs, e->var);
+  if(e->isint){ p += snprintf(mb + p, sizeof mb - p, ",\"A\":"); emit_int_matrix(mb, sizeof mb, &p, e->a); }   /* integer input: lets the runner name the pivot class of a failure */
+  snprintf(mb + p, sizeof mb - p, "}"); VRT_EMIT("%s", mb);
+}
+static void run_job(block *b, int jx){
+  job *j = &b->j[jx]; ment *e = &b->m[j->mi]; M a = e->a; static char buf[16384];
+  matrix *A = to_lib(a); int id = b->id, ru = j->reuse;
   switch(j->what){
     case J_INV: case J_LUINV: {
-      matrix *X; initMatrix(&X);
+      matrix *X = out_m(ru, &H_X, a.r, a.c, jx);
       if(j->what == J_INV) MatrixInversion(A, X); else MatrixLUInversion(A, X);
       M x = from_lib(X); double r = INFINITY;
       if(x.r == a.r && x.c == a.c){ M p = mul(a, x); for(int i = 0; i < a.r; i++) E(p,i,i) -= 1; r = maxabs(p); fr(p); }
-      VRT_EMIT("{\"e\":\"Inv\",\"id\":%d,\"routine\":\"%s\",\"r\":%ld}", j->idx, RN[j->what], vq12(r));
-      if(j->b.r == 1 && x.r == a.r && near_int(x, 1e6)){     /* integer input: log the integer inverse for the exact check A * inv = I */
-        int p = snprintf(buf, sizeof buf, "{\"e\":\"InvInt\",\"id\":%d,\"routine\":\"%s\",\"A\":", j->idx, RN[j->what]); emit_int_matrix(buf, sizeof buf, &p, a);
-        p += snprintf(buf + p, sizeof buf - p, ",\"inv\":"); emit_int_matrix(buf, sizeof buf, &p, x); snprintf(buf + p, sizeof buf - p, "}"); VRT_EMIT("%s", buf);
+      VRT_EMIT("{\"e\":\"Inv\",\"id\":%d,\"routine\":\"%s\",\"reuse\":%d,\"r\":%ld}", id, RN[j->what], ru, vq12(r));
+      if(e->isint && a.r <= 12){     /* integer input: log the integer inverse for the exact check A * inv = I (ok = 0: the result is not an integer matrix although ... see spec) */
+        int ok = x.r == a.r && x.c == a.c && near_int(x, 1e6);
+        if(ok){
+          int p = snprintf(buf, sizeof buf, "{\"e\":\"InvInt\",\"id\":%d,\"routine\":\"%s\",\"reuse\":%d,\"A\":", id, RN[j->what], ru); emit_int_matrix(buf, sizeof buf, &p, a);
+          p += snprintf(buf + p, sizeof buf - p, ",\"inv\":"); emit_int_matrix(buf, sizeof buf, &p, x); snprintf(buf + p, sizeof buf - p, "}"); VRT_EMIT("%s", buf);
+        }
       }
+      if(ru != 2) DelMatrix(&X);
       break; }
     case J_DET: {
       double d = MatrixDeterminant(A), ref = det_lu(a);
       /* the cofactor expansion sums n! products: its rounding error is bounded by ~n eps * prod_i |row_i|_1, whatever the conditioning */
       double r = fabs(d - ref) / rowsum_prod(a);
-      VRT_EMIT("{\"e\":\"Det\",\"id\":%d,\"routine\":\"MatrixDeterminant\",\"n\":%d,\"r\":%ld,\"rel\":%ld}", j->idx, a.r, vq12(r), vq12(fabs(d - ref) / (fabs(ref) > 0 ? fabs(ref) : 1e-300)));
-      if(j->b.r == 1 && a.r <= 4 && vfinite(d) && fabs(d) < 1e6 && fabs(d - round(d)) < 1e-9){
-        int p = snprintf(buf, sizeof buf, "{\"e\":\"DetInt\",\"id\":%d,\"routine\":\"MatrixDeterminant\",\"n\":%d,\"A\":", j->idx, a.r); emit_int_matrix(buf, sizeof buf, &p, a);
-        snprintf(buf + p, sizeof buf - p, ",\"det\":%ld}", (long)llround(d)); VRT_EMIT("%s", buf);
+      VRT_EMIT("{\"e\":\"Det\",\"id\":%d,\"routine\":\"MatrixDeterminant\",\"n\":%d,\"r\":%ld,\"rel\":%ld}", id, a.r, vq12(r), vq12(fabs(d - ref) / (fabs(ref) > 0 ? fabs(ref) : 1e-300)));
+      if(e->isint && a.r <= 8 && bareiss_fits(a)){
+        int ok = vfinite(d) && fabs(d) < 1e9 && fabs(d - round(d)) < 1e-6;
+        int p = snprintf(buf, sizeof buf, "{\"e\":\"DetInt\",\"id\":%d,\"routine\":\"MatrixDeterminant\",\"n\":%d,\"A\":", id, a.r); emit_int_matrix(buf, sizeof buf, &p, a);
+        snprintf(buf + p, sizeof buf - p, ",\"ok\":%d,\"det\":%ld}", ok, ok ? (long)llround(d) : 0L); VRT_EMIT("%s", buf);
       }
       break; }
     case J_DETMUL: {   /* det(A B) = det(A) det(B) */
-      matrix *B = to_lib(j->b), *P; NewMatrix(&P, a.r, a.r); MatrixDotProduct(A, B, P);
+      matrix *B = to_lib(e->partner), *P; NewMatrix(&P, a.r, a.r); MatrixDotProduct(A, B, P);
       double da = MatrixDeterminant(A), db = MatrixDeterminant(B), dp = MatrixDeterminant(P);
       M bm = from_lib(B), pm = from_lib(P);
       double r = fabs(dp - da * db) / (rowsum_prod(pm) + rowsum_prod(a) * rowsum_prod(bm));
-      VRT_EMIT("{\"e\":\"DetMul\",\"id\":%d,\"routine\":\"MatrixDeterminant\",\"n\":%d,\"r\":%ld}", j->idx, a.r, vq12(r));
+      VRT_EMIT("{\"e\":\"DetMul\",\"id\":%d,\"routine\":\"MatrixDeterminant\",\"n\":%d,\"r\":%ld}", id, a.r, vq12(r));
+      if(e->isint && e->partner_int && a.r <= 5 && bareiss_fits(a) && bareiss_fits(bm) && bareiss_fits(pm)){
+        int ok = vfinite(da) && vfinite(db) && vfinite(dp) && fabs(da) < 3e4 && fabs(db) < 3e4 && fabs(dp) < 9e8 &&
+                 fabs(da - round(da)) < 1e-6 && fabs(db - round(db)) < 1e-6 && fabs(dp - round(dp)) < 1e-6;
+        int p = snprintf(buf, sizeof buf, "{\"e\":\"DetMulInt\",\"id\":%d,\"routine\":\"MatrixDeterminant\",\"n\":%d,\"A\":", id, a.r); emit_int_matrix(buf, sizeof buf, &p, a);
+        p += snprintf(buf + p, sizeof buf - p, ",\"B\":"); emit_int_matrix(buf, sizeof buf, &p, bm);
+        snprintf(buf + p, sizeof buf - p, ",\"ok\":%d,\"da\":%ld,\"db\":%ld,\"dp\":%ld}", ok, ok ? (long)llround(da) : 0L, ok ? (long)llround(db) : 0L, ok ? (long)llround(dp) : 0L); VRT_EMIT("%s", buf);
+      }
       break; }
-    case J_SOLVE: {    /* b = A x0 ; j->b holds x0 as a column */
-      int n = a.r; M bb = mul(a, j->b); matrix *G; NewMatrix(&G, n, n + 1); dvector *s; initDVector(&s);
+    case J_SOLVE: {    /* b = A x0 ; e->x0 holds x0 as a column */
+      int n = a.r; M bb = mul(a, e->x0); matrix *G; NewMatrix(&G, n, n + 1); dvector *s = out_v(ru, &H_sol, n, jx, 1e3);
       for(int i = 0; i < n; i++){ for(int k = 0; k < n; k++) G->data[i][k] = E(a,i,k); G->data[i][n] = E(bb,i,0); }
       SolveLSE(G, s);
       double rf = INFINITY, rb = INFINITY;
       if(s->size == (size_t)n){
         M x = mk(n, 1); for(int i = 0; i < n; i++) E(x,i,0) = s->data[i];
-        M ax = mul(a, x); double e = 0, f = 0; for(int i = 0; i < n; i++){ e += (E(ax,i,0) - E(bb,i,0)) * (E(ax,i,0) - E(bb,i,0)); f += (E(x,i,0) - E(j->b,i,0)) * (E(x,i,0) - E(j->b,i,0)); }
-        rb = sqrt(e) / (fro(a) * fro(x) + fro(bb) + 1e-300); rf = sqrt(f) / (fro(j->b) + 1e-300);
+        M ax = mul(a, x); double ee = 0, f = 0; for(int i = 0; i < n; i++){ ee += (E(ax,i,0) - E(bb,i,0)) * (E(ax,i,0) - E(bb,i,0)); f += (E(x,i,0) - E(e->x0,i,0)) * (E(x,i,0) - E(e->x0,i,0)); }
+        rb = sqrt(ee) / (fro(a) * fro(x) + fro(bb) + 1e-300); rf = sqrt(f) / (fro(e->x0) + 1e-300);
         if(!vfinite(maxabs(x))) rb = rf = INFINITY;
       }
-      VRT_EMIT("{\"e\":\"Solve\",\"id\":%d,\"routine\":\"SolveLSE\",\"rb\":%ld,\"rf\":%ld}", j->idx, vq12(rb), vq12(rf));
+      VRT_EMIT("{\"e\":\"Solve\",\"id\":%d,\"routine\":\"SolveLSE\",\"reuse\":%d,\"rb\":%ld,\"rf\":%ld}", id, ru, vq12(rb), vq12(rf));
+      if(ru != 2) DelDVector(&s);
       break; }
-    case J_OLS: {      /* a is m x n tall, j->b is y (m x 1): normal equations X'(X beta - y) = 0 */
-      int m = a.r, n = a.c; dvector *y, *be; NewDVector(&y, m); initDVector(&be); for(int i = 0; i < m; i++) y->data[i] = E(j->b,i,0);
+    case J_OLS: {      /* a is m x n (m >= n, full column rank), e->y is y (m x 1): normal equations X'(X beta - y) = 0 */
+      int m = a.r, n = a.c; dvector *y, *be = out_v(ru, &H_beta, n, jx, -5.0); NewDVector(&y, m); for(int i = 0; i < m; i++) y->data[i] = E(e->y,i,0);
       OrdinaryLeastSquares(A, y, be);
       double r = INFINITY;
       if(be->size == (size_t)n){
-        M b = mk(n, 1); for(int i = 0; i < n; i++) E(b,i,0) = be->data[i];
-        M xb = mul(a, b); for(int i = 0; i < m; i++) E(xb,i,0) -= E(j->b,i,0);
+        M bt = mk(n, 1); for(int i = 0; i < n; i++) E(bt,i,0) = be->data[i];
+        M xb = mul(a, bt); for(int i = 0; i < m; i++) E(xb,i,0) -= E(e->y,i,0);
         M at = tr(a), g = mul(at, xb);
-        r = fro(g) / (fro(a) * (fro(a) * fro(b) + fro(j->b)) + 1e-300); if(!vfinite(maxabs(b))) r = INFINITY;
+        r = fro(g) / (fro(a) * (fro(a) * fro(bt) + fro(e->y)) + 1e-300); if(!vfinite(maxabs(bt))) r = INFINITY;
       }
-      VRT_EMIT("{\"e\":\"Ols\",\"id\":%d,\"routine\":\"OrdinaryLeastSquares\",\"r\":%ld}", j->idx, vq12(r));
+      VRT_EMIT("{\"e\":\"Ols\",\"id\":%d,\"routine\":\"OrdinaryLeastSquares\",\"shape\":\"%s\",\"reuse\":%d,\"r\":%ld}", id, e->shape, ru, vq12(r));
+      if(ru != 2) DelDVector(&be);
       break; }
-    case J_PENROSE: {
-      matrix *P; initMatrix(&P); MatrixMoorePenrosePseudoinverse(A, P);
+    case J_PENROSE: case J_PINVSVD: {   /* J_PINVSVD: the SVD-based MatrixPseudoinversion (named in the anchors, not in the statement's observe list: EXTRA only) */
+      matrix *P = out_m(ru, &H_P, a.c, a.r, jx); if(j->what == J_PENROSE) MatrixMoorePenrosePseudoinverse(A, P); else MatrixPseudoinversion(A, P);
       M p = from_lib(P); double r1 = INFINITY, r2 = INFINITY, r3 = INFINITY, r4 = INFINITY;
       if(p.r == a.c && p.c == a.r && vfinite(maxabs(p))){
         M ap = mul(a, p), pa = mul(p, a), apa = mul(ap, a), pap = mul(pa, p);
@@ -188,88 +381,166 @@ static int child(void *arg){
         r3 = 0; for(int i = 0; i < ap.r; i++) for(int k = 0; k < ap.c; k++){ double d = fabs(E(ap,i,k) - E(ap,k,i)); if(d > r3) r3 = d; }
         r4 = 0; for(int i = 0; i < pa.r; i++) for(int k = 0; k < pa.c; k++){ double d = fabs(E(pa,i,k) - E(pa,k,i)); if(d > r4) r4 = d; }
       }
-      VRT_EMIT("{\"e\":\"Penrose\",\"id\":%d,\"routine\":\"MatrixMoorePenrosePseudoinverse\",\"shape\":\"%s\",\"r1\":%ld,\"r2\":%ld,\"r3\":%ld,\"r4\":%ld}", j->idx, j->shape, vq12(r1), vq12(r2), vq12(r3), vq12(r4));
+      VRT_EMIT("{\"e\":\"Penrose\",\"id\":%d,\"routine\":\"%s\",\"shape\":\"%s\",\"reuse\":%d,\"r1\":%ld,\"r2\":%ld,\"r3\":%ld,\"r4\":%ld}", id, RN[j->what], e->shape, ru, vq12(r1), vq12(r2), vq12(r3), vq12(r4));
+      if(ru != 2) DelMatrix(&P);
       break; }
     case J_EIG: {
-      int n = a.r; dvector *ev; matrix *V; initDVector(&ev); initMatrix(&V); EVectEval(A, ev, V);
-      double r = INFINITY; int nz = 0;
+      int n = a.r; dvector *ev = out_v(ru, &H_ev, n, jx, 3.0); matrix *V = out_m(ru, &H_V, n, n, jx); EVectEval(A, ev, V);
+      double r = INFINITY, trr = INFINITY; int nz = 0;
       if(ev->size == (size_t)n && V->row == (size_t)n && V->col == (size_t)n){
-        r = 0; nz = 1; double na = fro(a);
+        r = 0; nz = 1; double na = fro(a), sl = 0, ta = 0;
         for(int k = 0; k < n; k++){
-          double nv = 0, e = 0; for(int i = 0; i < n; i++) nv += V->data[i][k] * V->data[i][k];
+          double nv = 0, ee = 0; for(int i = 0; i < n; i++) nv += V->data[i][k] * V->data[i][k];
           nv = sqrt(nv); if(!(nv > 1e-8)) nz = 0;
-          for(int i = 0; i < n; i++){ double s = 0; for(int q = 0; q < n; q++) s += E(a,i,q) * V->data[q][k]; s -= ev->data[k] * V->data[i][k]; e += s * s; }
-          double rk = sqrt(e) / (na * nv + 1e-300); if(!(rk <= r)) r = rk;
+          for(int i = 0; i < n; i++){ double s = 0; for(int q = 0; q < n; q++) s += E(a,i,q) * V->data[q][k]; s -= ev->data[k] * V->data[i][k]; ee += s * s; }
+          double rk = sqrt(ee) / (na * nv + 1e-300); if(!(rk <= r)) r = rk;
+          sl += ev->data[k]; ta += E(a,k,k);
         }
+        trr = fabs(sl - ta) / (na + 1e-300);          /* Impl layer: the n pairs are a COMPLETE set (sum of eigenvalues = trace) */
       }
-      VRT_EMIT("{\"e\":\"Eig\",\"id\":%d,\"routine\":\"EVectEval\",\"r\":%ld,\"nz\":%d}", j->idx, vq12(r), nz);
+      VRT_EMIT("{\"e\":\"Eig\",\"id\":%d,\"routine\":\"EVectEval\",\"reuse\":%d,\"r\":%ld,\"nz\":%d,\"tr\":%ld}", id, ru, vq12(r), nz, vq12(trr));
+      if(ru != 2){ DelDVector(&ev); DelMatrix(&V); }
       break; }
     case J_SVD: case J_SVDLAPACK: {
-      matrix *U, *S, *VT; initMatrix(&U); initMatrix(&S); initMatrix(&VT);
+      int k = e->k; matrix *U = out_m(ru, &H_U, a.r, k, jx), *S = out_m(ru, &H_S, k, k, jx + 1), *VT = out_m(ru, &H_VT, k, a.c, jx + 2);
       if(j->what == J_SVD) SVD(A, U, S, VT); else SVDlapack(A, U, S, VT);
       int shp = U->row == (size_t)a.r && U->col == S->row && S->col == VT->row && VT->col == (size_t)a.c && S->row > 0 && S->col > 0;
-      int sig = 1; double recon = INFINITY;
+      int sig = 1; double recon = INFINITY, svr = INFINITY, orth = INFINITY;
       for(size_t i = 0; i < S->row && i < S->col; i++) if(!(S->data[i][i] >= 0)) sig = 0;
-      if(shp){ M u = from_lib(U), s = from_lib(S), vt = from_lib(VT), us = mul(u, s), p = mul(us, vt); for(int i = 0; i < a.r * a.c; i++) p.a[i] -= a.a[i]; recon = fro(p) / fro(a); }
-      VRT_EMIT("{\"e\":\"Svd\",\"id\":%d,\"routine\":\"%s\",\"shape\":\"%s\",\"shp\":%d,\"sig\":%d,\"recon\":%ld,\"dims\":[%zu,%zu,%zu,%zu,%zu,%zu]}", j->idx, RN[j->what], j->shape, shp, sig, vq12(recon),
+      if(shp){
+        M u = from_lib(U), s = from_lib(S), vt = from_lib(VT), us = mul(u, s), p = mul(us, vt); double na = fro(a);
+        for(int i = 0; i < a.r * a.c; i++) p.a[i] -= a.a[i];
+        recon = na > 0 ? fro(p) / na : fro(p);
+        /* the diagonal of S, in any order, must be THE singular values of the input (oracle: dgesvd); off-diagonal entries of S count */
+        double dg[12] = {0}, off = 0; int nd = 0;
+        for(int i = 0; i < s.r; i++) for(int q = 0; q < s.c; q++){ if(i == q){ if(nd < 12) dg[nd++] = E(s,i,q); } else if(fabs(E(s,i,q)) > off || !vfinite(E(s,i,q))) off = fabs(E(s,i,q)); }
+        for(int i = 0; i < nd; i++) for(int q = i + 1; q < nd; q++) if(dg[q] > dg[i]){ double t = dg[i]; dg[i] = dg[q]; dg[q] = t; }
+        double worst = off; for(int i = 0; i < nd || i < k; i++){ double d = fabs((i < nd ? dg[i] : 0.0) - (i < k ? e->sv[i] : 0.0)); if(!(d <= worst)) worst = d; }
+        svr = e->sv[0] > 0 ? worst / e->sv[0] : worst;
+        /* Impl layer: orthonormal columns of U and rows of VT */
+        M ut = tr(u), utu = mul(ut, u), vtt = tr(vt), vv = mul(vt, vtt); for(int i = 0; i < utu.r; i++) E(utu,i,i) -= 1; for(int i = 0; i < vv.r; i++) E(vv,i,i) -= 1;
+        orth = maxabs(utu) > maxabs(vv) ? maxabs(utu) : maxabs(vv); if(!vfinite(maxabs(u)) || !vfinite(maxabs(vt))) orth = INFINITY;
+      }
+      VRT_EMIT("{\"e\":\"Svd\",\"id\":%d,\"routine\":\"%s\",\"shape\":\"%s\",\"reuse\":%d,\"shp\":%d,\"sig\":%d,\"recon\":%ld,\"sv\":%ld,\"orth\":%ld,\"dims\":[%zu,%zu,%zu,%zu,%zu,%zu]}", id, RN[j->what], e->shape, ru, shp, sig, vq12(recon), vq12(svr), vq12(orth),
                U->row, U->col, S->row, S->col, VT->row, VT->col);
+      if(ru != 2){ DelMatrix(&U); DelMatrix(&S); DelMatrix(&VT); }
       break; }
   }
+  DelMatrix(&A);
   fflush(vrt_out);
-  return 0;
 }
-static void call(job *j){
-  int rc = vrt_run_child(child, j, 60);
-  if(rc != 0) VRT_EMIT("{\"e\":\"Crash\",\"id\":%d,\"routine\":\"%s\",\"shape\":\"%s\",\"rc\":%d}", j->idx, RN[j->what], j->shape, rc);
+static void child_run(block *b, int start, int *seqbase){
+  int last = -1;
+  for(int jx = start; jx < b->nj; jx++){
+    progress[0] = jx;
+    alarm(90);                                  /* watchdog: SIGALRM kills the child, the parent logs a Crash for job jx */
+    if(b->j[jx].mi != last){ last = b->j[jx].mi; emit_mat(b, last, seqbase[last]); fflush(vrt_out); }
+    run_job(b, jx);
+  }
+  alarm(0);
+}
+static long ncrash = 0, nblocks = 0, njobs = 0;
+static void run_block(block *b){
+  int seq[MAXM]; for(int i = 0; i < b->nm; i++) seq[i] = i;
+  VRT_EMIT("{\"e\":\"Reset\",\"id\":%d,\"hist\":%d}", b->id, b->hist);
+  nblocks++; njobs += b->nj;
+  int start = 0;
+  while(start < b->nj){
+    fflush(NULL); progress[0] = start;
+    pid_t pid = fork();
+    if(pid < 0){ perror("fork"); exit(2); }
+    if(pid == 0){ signal(SIGALRM, SIG_DFL); child_run(b, start, seq); fflush(NULL); _exit(0); }
+    int status = 0; if(waitpid(pid, &status, 0) != pid){ perror("waitpid"); exit(2); }
+    if(WIFEXITED(status) && WEXITSTATUS(status) == 0) break;
+    int jx = progress[0], rc = WIFSIGNALED(status) ? 1000 + WTERMSIG(status) : WEXITSTATUS(status);
+    if(jx < start || jx >= b->nj){ fprintf(stderr, "c12_trace: child of block %d died outside a job (rc %d)\n", b->id, rc); exit(2); }
+    ncrash++;
+    VRT_EMIT("{\"e\":\"Crash\",\"id\":%d,\"routine\":\"%s\",\"shape\":\"%s\",\"reuse\":%d,\"rc\":%d}", b->id, RN[b->j[jx].what], b->m[b->j[jx].mi].shape, b->j[jx].reuse, rc);
+    start = jx + 1;
+  }
+}
+
+/* ---- the plan ---- */
+typedef struct { int kind, a, b, c, d; } item;      /* kind 0 square(cls,n,sweep) 1 rect(m,n,sweep) 2 rankdef(m,n,kind,sc) 3 history(routine,variant) */
+static item *PLAN; static int NPLAN;
+static void plan_add(int kind, int a, int b, int c, int d){ PLAN = realloc(PLAN, sizeof(item) * (size_t)(NPLAN + 1)); PLAN[NPLAN].kind = kind; PLAN[NPLAN].a = a; PLAN[NPLAN].b = b; PLAN[NPLAN].c = c; PLAN[NPLAN].d = d; NPLAN++; }
+static void build_plan(int tier){
+  int sweeps = tier ? 36 : 3, rsweeps = tier ? 16 : 2, hvar = tier ? 72 : 6;
+  /* interleave the kinds so that every part of the round-robin split gets every kind */
+  for(int s = 0; s < sweeps; s++){
+    for(int n = 1; n <= 12; n++) for(int cls = 0; cls < NSQ; cls++) plan_add(0, cls, n, s, 0);
+    if(s < rsweeps) for(int m = 2; m <= 12; m++) for(int n = 1; n < m; n++) plan_add(1, m, n, s, 0);
+    for(int h = 0; h < (hvar + sweeps - 1) / sweeps; h++){ int v = s * ((hvar + sweeps - 1) / sweeps) + h; if(v < hvar) for(int rt = 0; rt < NJK; rt++) if(rt != J_DETMUL && rt != J_SVD) plan_add(3, rt, v, 0, 0); }
+    for(int q = 0; q < (tier ? 12 : 8); q++){ int g = s * 12 + q; static const int SH[][2] = {{1,1},{3,3},{4,2},{2,4},{12,12},{12,1},{1,12},{5,8},{8,5},{7,7},{12,11},{11,12}}; plan_add(2, SH[g % 12][0], SH[g % 12][1], (g / 3) % 4, g % 3); }
+  }
+}
+/* size patterns of a history: 0..3 change the size at almost every call (shape-keyed caches, work arrays sized once), 4..5 repeat a size
+ * (the output keeps its shape and is NOT resized: whatever the previous call left in it is still there) */
+#define NHV 6
+static const int HSZ[NHV][10] = {{12, 1, 7, 7, 3, 12, 2, 8, 5, 12}, {2, 11, 4, 4, 9, 1, 12, 6, 12, 3}, {8, 8, 1, 12, 5, 5, 12, 4, 7, 2}, {1, 12, 12, 3, 10, 2, 6, 6, 11, 8},
+                                 {9, 9, 12, 12, 5, 5, 2, 2, 7, 7}, {12, 12, 12, 4, 4, 4, 8, 8, 1, 1}};
+static const int HRECT[NHV][10][2] = {{{12,12},{1,1},{12,3},{3,12},{5,5},{1,12},{12,1},{4,9},{9,4},{12,12}}, {{2,7},{7,2},{7,7},{12,11},{11,12},{1,5},{5,1},{8,8},{3,4},{12,2}},
+                                   {{6,6},{12,1},{1,12},{1,1},{10,4},{4,10},{4,4},{9,12},{12,9},{2,2}}, {{11,3},{3,3},{3,11},{12,12},{12,12},{2,1},{1,2},{7,8},{8,7},{5,5}},
+                                   {{12,5},{12,5},{5,12},{5,12},{8,8},{8,8},{3,2},{3,2},{12,12},{12,12}}, {{7,3},{7,3},{7,3},{10,10},{10,10},{1,1},{1,1},{12,1},{12,1},{6,11}}};
+static int build_block(block *b, int idx, long *dropped){
+  item *it = &PLAN[idx]; memset(b, 0, sizeof *b); b->id = idx;
+  switch(it->kind){
+    case 0: { int cls = it->a, n = it->b, s = it->c; int scmode = (s + cls + n) % 3, xsmode = (s / 3 + cls + 2 * n) % 3, sub = s + (n - 1);
+      if(cls == INTS && n > 8) n = n - 8;                                                  /* integer class: exact determinant up to 8 */
+      if(!make_square(&b->m[0], cls, n, sub, scmode, xsmode)){ (*dropped)++; return 0; }
+      b->nm = 1; square_jobs(b, 0, (idx / 7) % 2);                                         /* alternate fresh / sized-stale outputs */
+      return 1; }
+    case 1: { int m = it->a, n = it->b, s = it->c; int scmode = (s + m + n) % 3;
+      double cmax = s % 2 == 0 ? 1e3 : 1e6;                                                /* even sweeps: all routines (cond <= 1e3); odd: SVD up to 1e6 */
+      if(!make_tall(&b->m[0], m, n, cmax, scmode, (m + 2 * n + s) % 4)){ (*dropped)++; return 0; }
+      b->nm = 1; int ru = (idx / 5) % 2;
+      if(b->m[0].cond <= 1e3){ add_job(b, J_OLS, 0, ru); add_job(b, J_PENROSE, 0, ru); if((m + n) % 6 == 0) add_job(b, J_PINVSVD, 0, 0); }
+      add_job(b, J_SVDLAPACK, 0, ru); if((m + n) % 5 == 0) add_job(b, J_SVD, 0, 0);
+      if(make_wide_of(&b->m[1], &b->m[0])){ b->nm = 2; add_job(b, J_SVDLAPACK, 1, ru); if((m + n) % 7 == 0) add_job(b, J_SVD, 1, 0); }
+      return 1; }
+    case 2: { if(!make_rankdef(&b->m[0], it->a, it->b, it->c, it->d)){ (*dropped)++; return 0; }
+      b->nm = 1; add_job(b, J_SVDLAPACK, 0, 0); return 1; }
+    default: { /* history: one routine, ~10 calls on different matrices, the same outputs throughout */
+      int rt = it->a, v = it->b; b->hist = 1;
+      for(int q = 0; q < 10 && b->nm < MAXM; q++){
+        ment *e = &b->m[b->nm]; int ok = 0, scmode = (q + v) % 3, xsmode = (q % 2 == 0) ? 2 : 1;   /* solution magnitudes alternate 1e6 / 1e-6 */
+        if(rt == J_SVDLAPACK || rt == J_OLS || rt == J_PENROSE){
+          int m = HRECT[v % NHV][q][0], n = HRECT[v % NHV][q][1];
+          if(rt != J_SVDLAPACK && m < n){ int t = m; m = n; n = t; }
+          if(m == n){ static const int C[] = {GEN, SPD, TRI, ZLM, DIAG, PERM}; ok = make_square(e, C[(q + v) % 6], m, q + v, scmode, xsmode); if(ok && rt != J_SVDLAPACK && e->cond > 1e3) ok = 0; }
+          else if(m > n) ok = make_tall(e, m, n, rt == J_SVDLAPACK ? 1e6 : 1e3, scmode, 0);
+          else { ment t; ok = make_tall(&t, n, m, 1e6, scmode, 0) && make_wide_of(e, &t); }
+        } else {
+          int n = HSZ[v % NHV][q]; if(rt == J_DET && n > 8) n = n - 6;
+          static const int CE[] = {SPD, REPEIG, SYMM, DIAG, SYMPERM, TOEP}, CG[] = {GEN, ZLM, PERM, TRI, SPD, GRADED, UTRI, DIAG}, CS[] = {GEN, SPD, GRADED, SYMM, NONREP, TOEP, ZLM, OFFSET};
+          ok = make_square(e, rt == J_EIG ? CE[(q + v) % 6] : (rt == J_SOLVE ? CS[(q + v) % 8] : CG[(q + v) % 8]), n, q + v, scmode, xsmode);
+        }
+        if(!ok){ (*dropped)++; continue; }
+        add_job(b, rt, b->nm, 2); b->nm++;
+      }
+      return b->nj > 0; }
+  }
 }
 
 int main(int argc, char **argv){
-  if(argc < 4){ fprintf(stderr, "usage: c12_trace out.ndjson seed nmat\n"); return 2; }
-  vrt_open(argv[1]); R.s = (uint64_t)atoll(argv[2]) * 0x9E3779B97F4A7C15ULL + 777; int nmat = atoi(argv[3]);
-  vrt_force_nproc(1);
-  long dropped = 0;
-  for(int id = 0; id < nmat; id++){
-    int cls = id % NCLS, n = 1 + (int)((id / NCLS) % 12), is_int = 0;
-    if(cls == INTS) n = 1 + n % 4;
-    M a = gen_square(cls, n, &is_int);
-    double smax = 0, c = cond2(a, &smax);
-    if(!(c <= 1e6)){ dropped++; fr(a); continue; }          /* outside the quantifier (singular or ill-conditioned): dropped, counted */
-    VRT_EMIT("{\"e\":\"Reset\",\"id\":%d}", id);
-    { static char mb[8192]; int p = snprintf(mb, sizeof mb, "{\"e\":\"Mat\",\"id\":%d,\"class\":\"%s\",\"m\":%d,\"n\":%d,\"cond\":%ld,\"lead0\":%d,\"isint\":%d", id, CLS[cls], n, n, (long)ceil(c), E(a,0,0) == 0.0 ? 1 : 0, is_int);
-      if(is_int){ p += snprintf(mb + p, sizeof mb - p, ",\"A\":"); emit_int_matrix(mb, sizeof mb, &p, a); }   /* integer input: lets the runner name the pivot class of a failure */
-      snprintf(mb + p, sizeof mb - p, "}"); VRT_EMIT("%s", mb); }
-    M flag = mk(is_int ? 1 : 2, 1);
-    job j; j.a = a; j.idx = id; j.shape = "square"; j.b = flag;
-    j.what = J_INV; call(&j); j.what = J_LUINV; call(&j);
-    if(n <= 8){ j.what = J_DET; call(&j);
-      int ii; M b2 = gen_square(id % 2 ? PERM : DIAG, n, &ii); j.b = b2; j.what = J_DETMUL; call(&j); fr(b2); }
-    { M x0 = mk(n, 1); for(int i = 0; i < n; i++) E(x0,i,0) = vr_norm(&R) + (vr_unif(&R) < 0.5 ? 2 : -2); j.b = x0; j.what = J_SOLVE; call(&j); fr(x0); }
-    if(cls == SPD || cls == SYMM || cls == DIAG || cls == TOEP){ j.b = flag; j.what = J_EIG; call(&j); }
-    if(c <= 1e3){ j.b = flag; j.what = J_PENROSE; call(&j); }   /* normal equations: cond^2 <= 1e6 */
-    j.b = flag; j.what = J_SVD; call(&j); j.what = J_SVDLAPACK; call(&j);
-    fr(a);
-    /* rectangular companions: tall (full column rank) for OLS / Penrose / SVD, wide for SVD */
-    if(id % 3 == 0){
-      int m2 = 2 + (int)vr_int(&R, 0, 10), n2 = 1 + (int)vr_int(&R, 0, m2 - 2);      /* m2 > n2 */
-      double cnd = pow(10.0, 3.0 * vr_unif(&R));
-      M t = with_sv(m2, n2, cnd, ldexp(1.0, (int)vr_int(&R, -8, 8)));
-      double ct = cond2(t, NULL);
-      if(ct <= 1e3){
-        VRT_EMIT("{\"e\":\"Mat\",\"id\":%d,\"class\":\"tall\",\"m\":%d,\"n\":%d,\"cond\":%ld,\"lead0\":0,\"isint\":0}", id, m2, n2, (long)ceil(ct));
-        M y = mk(m2, 1); for(int i = 0; i < m2; i++) E(y,i,0) = vr_norm(&R);
-        job k; k.a = t; k.idx = id; k.shape = "rect-tall"; k.b = y; k.what = J_OLS; call(&k);
-        k.b = flag; k.what = J_PENROSE; call(&k); k.what = J_SVD; call(&k); k.what = J_SVDLAPACK; call(&k);
-        M w = tr(t);
-        VRT_EMIT("{\"e\":\"Mat\",\"id\":%d,\"class\":\"wide\",\"m\":%d,\"n\":%d,\"cond\":%ld,\"lead0\":0,\"isint\":0}", id, n2, m2, (long)ceil(ct));
-        k.a = w; k.shape = "rect-wide"; k.what = J_SVD; call(&k); k.what = J_SVDLAPACK; call(&k);
-        fr(w); fr(y);
-      } else dropped++;
-      fr(t);
-    }
-    fr(flag);
+  if(argc < 6){ fprintf(stderr, "usage: c12_trace out.ndjson seed tier part nparts [only_item]\n"); return 2; }
+  vrt_open(argv[1]); uint64_t seed = (uint64_t)atoll(argv[2]); int tier = atoi(argv[3]), part = atoi(argv[4]), nparts = atoi(argv[5]), only = argc > 6 ? atoi(argv[6]) : -1;
+  static const int NP[] = {1, 2, 3, 5, 16, 24}; int np = NP[part % 6];
+  vrt_force_nproc((size_t)np);                  /* K6: none of the routines reaches an MT_* kernel; the forced count must simply not matter */
+  progress = mmap(NULL, 4096, PROT_READ | PROT_WRITE, MAP_SHARED | MAP_ANONYMOUS, -1, 0);
+  if(progress == MAP_FAILED){ perror("mmap"); return 2; }
+  build_plan(tier);
+  VRT_EMIT("{\"e\":\"Start\",\"plan\":%d,\"part\":%d,\"nparts\":%d,\"nproc\":%d}", NPLAN, part, nparts, np);
+  long dropped = 0; static block b;
+  for(int idx = 0; idx < NPLAN; idx++){
+    if(only >= 0 ? idx != only : idx % nparts != part) continue;
+    R.s = (seed * 0x9E3779B97F4A7C15ULL + 777) ^ ((uint64_t)(idx + 1) * 0xD1B54A32D192ED03ULL); vr_next(&R);
+    if(!build_block(&b, idx, &dropped)) continue;
+    run_block(&b);
+    for(int i = 0; i < b.nm; i++){ fr(b.m[i].a); fr(b.m[i].x0); fr(b.m[i].y); fr(b.m[i].partner); }
   }
-  VRT_EMIT("{\"e\":\"Reset\",\"id\":-1}");
-  VRT_EMIT("{\"e\":\"End\",\"dropped\":%ld}", dropped);
+  VRT_EMIT("{\"e\":\"Reset\",\"id\":-1,\"hist\":0}");
+  VRT_EMIT("{\"e\":\"End\",\"dropped\":%ld,\"blocks\":%ld,\"jobs\":%ld,\"crashes\":%ld}", dropped, nblocks, njobs, ncrash);
   vrt_close();
   return 0;
 }
